@@ -78,6 +78,12 @@ func addrBytes(r *h.Rng, loc common.Location, n int) []byte {
 	return b
 }
 
+// inZone is the property's own definition, independent of the code under test: a 20-byte address
+// belongs to the zone named by its first byte.
+func inZone(b []byte, loc common.Location) bool {
+	return len(loc) == 2 && len(b) == 20 && b[0] == loc[0]<<4+loc[1]
+}
+
 func kindOf(a common.Address) string {
 	if _, err := a.InternalAddress(); err == nil {
 		return "I " + h.Hex(a.Bytes())
@@ -128,7 +134,7 @@ func runAddr(seed uint64, n int, outDir string, replay string) {
 				// T3: for a 20-byte input every constructor agrees with the scope predicate
 				if len(b) == 20 {
 					want := "E"
-					if common.IsInChainScope(b, loc) {
+					if inZone(b, loc) {
 						want = "I"
 					}
 					if !strings.HasPrefix(kindOf(a), want) || string(a.Bytes()) != string(b) {
@@ -139,6 +145,9 @@ func runAddr(seed uint64, n int, outDir string, replay string) {
 			case 1:
 				o.Op("scope %s %s", lh, h.Hex(b))
 				ans(tf(common.IsInChainScope(b, loc)))
+				if len(b) == 20 && common.IsInChainScope(b, loc) != inZone(b, loc) {
+					o.Violate("addr-scope-predicate", fmt.Sprintf("IsInChainScope(%x,%v)=%v but first byte says %v", b, loc, common.IsInChainScope(b, loc), inZone(b, loc)))
+				}
 			case 2:
 				if len(b) != 20 {
 					continue
@@ -304,7 +313,7 @@ func addrState(o *h.Out, rc *h.Rng, loc common.Location, ans func(string)) {
 		if sdb.Exist(ia) && !seen[string(b)] {
 			seen[string(b)] = true
 			got = append(got, h.Hex(b))
-			if !common.IsInChainScope(b, loc) || b[1] > 127 {
+			if !inZone(b, loc) || b[1] > 127 {
 				o.Violate("addr-state-out-of-scope", fmt.Sprintf("account %x exists in state of zone %v", b, loc))
 			}
 		}
@@ -378,7 +387,7 @@ func addrGrind(o *h.Out, rc *h.Rng, loc common.Location, ans func(string)) {
 		ans("err")
 	} else {
 		ans(fmt.Sprintf("ok %s %d", h.Hex(a.Bytes()), left))
-		if !common.IsInChainScope(a.Bytes(), loc) || a.Bytes()[1] > 127 {
+		if !inZone(a.Bytes(), loc) || a.Bytes()[1] > 127 {
 			o.Violate("addr-create-out-of-scope", fmt.Sprintf("GrindContract returned %x for zone %v", a.Bytes(), loc))
 		}
 	}
